@@ -51,6 +51,7 @@ func main() {
 }
 
 func dispatch(prop, tier string, seed int64) int {
+	hdr.Extra["C19"] = pow.C19Fixture
 	if _, ok := hdr.HistCheckFor(prop); ok {
 		return hdr.RunHist(prop, tier, seed)
 	}
